@@ -352,7 +352,9 @@ func genDaemonScenario(r *vlib.Rng, nsess int, bigEvents bool, uncorrelated bool
 					}
 					q = append(q, it)
 				} else {
-					q = append(q, mk(vlib.AuUser(vlib.PickOne(r, []string{"USER_START", "USER_END", "CRED_ACQ", "USER_CMD"}), t, seq, s.Pid, s.Sid, "PAM:x", "success")))
+					// the result is usually success, sometimes a failure, and some records carry none at all
+					q = append(q, mk(vlib.AuUser(vlib.PickOne(r, []string{"USER_START", "USER_END", "CRED_ACQ", "USER_CMD"}), t, seq, s.Pid, s.Sid, "PAM:x",
+						vlib.PickOne(r, []string{"success", "success", "success", "failed", ""}))))
 				}
 			}
 			if r.Chance(75) {
